@@ -47,8 +47,8 @@ def parse_snapshot(snap, plens):
 
 
 def rq(t):
-    i, l = t.split("/")
-    return "%s %s" % (i, l)
+    i, l, h = t.split("/")
+    return None if h != i else "%s %s" % (i, l)
 
 
 def coq_result(res):
@@ -69,12 +69,12 @@ def coq_result(res):
     if k in simple:
         return "(XOk %s)" % simple[k]
     withreq = {"U_INTREQ": "RUnchoke_IntReq", "U_REQ": "RUnchoke_Req", "H_INTREQ": "RHave_IntReq", "P_REQ": "RPiece_Req"}
-    if k in withreq:
-        return "(XOk (%s %s))" % (withreq[k], rq(t[1]))
+    if k in withreq:      # XBadHash: the reply's piece_hash is not the hash of the reply's piece_index
+        return "XBadHash" if rq(t[1]) is None else "(XOk (%s %s))" % (withreq[k], rq(t[1]))
     if k == "B_STATE":
         return "(XOk (RBitfieldState %s %s))" % ("true" if t[1][0] == "1" else "false", "true" if t[1][1] == "1" else "false")
     if k == "Q_LOAD":
-        return "(XOk (RReq_Load %s))" % t[1]
+        return "XBadHash" if t[2] != t[1] else "(XOk (RReq_Load %s))" % t[1]
     if k == "ROT":
         m = [] if t[1] == "-" else [x.split("=") for x in t[1].split("+")]
         return "(XRot [%s])" % ";".join("(%s, %s)" % (a, "true" if c == "1" else "false") for a, c in m)
